@@ -712,6 +712,7 @@ func init() {
 	}
 
 	register("Repeat", func(a []string) string {
+		holdOff = true // this harness holds, compares and scribbles results itself
 		op, ok := c11Ops[a[0]]
 		if !ok {
 			panic("harness: unknown C11 operation " + a[0])
@@ -762,6 +763,7 @@ func init() {
 	// a[0] tag of the command, a[1] repetitions, a[2] minimal number of output lines, a[3] = words separated by |
 	// ({D} = the data directory, {D}/x = a file below it; words are hex), then the files
 	register("RepeatCLI", func(a []string) string {
+		holdOff = true // this harness holds, compares and scribbles results itself
 		cli := os.Getenv("PGREAD_CLI")
 		if cli == "" {
 			panic("harness: PGREAD_CLI not set")
@@ -878,6 +880,7 @@ func init() {
 
 	// a[0] goroutines, a[1] operations per goroutine, a[2] seed, a[3] = op specs "name~param" separated by ';', then files
 	register("Concurrent", func(a []string) string {
+		holdOff = true // this harness holds, compares and scribbles results itself
 		ng, _ := strconv.Atoi(a[0])
 		iters, _ := strconv.Atoi(a[1])
 		seed, _ := strconv.ParseInt(a[2], 10, 64)
